@@ -74,11 +74,12 @@ theorem step_error_located {banned : List Kind} {f : List BTree} {en : Ent} {c :
 /-! ## (3) duplicates are reported at the second occurrence
 
 `i < j` are positions of `flatAF [] f`; the entries before position `j` are processed without error (`hpre`);
-the stages before the fold pass (`h0`–`h3`). -/
+the stages before the fold pass (`h0`–`h3`).  Restated for F76: the state of the Path stage in `h2` is a list
+(`x : List Nat`, initial state `[]`; it was `Option Nat`, `none`). -/
 
-theorem dup_type_located {banned : List Kind} {f : List BTree} {c₀ c : Cat} {x : Option Nat} {i j : Nat}
+theorem dup_type_located {banned : List Kind} {f : List BTree} {c₀ c : Cat} {x : List Nat} {i j : Nat}
     {e₁ e₂ : Ent}
-    (h0 : collectTags f {} = .ok c₀) (h1 : checkTypeNames f = .ok ()) (h2 : pathsForest [] f none = .ok x)
+    (h0 : collectTags f {} = .ok c₀) (h1 : checkTypeNames f = .ok ()) (h2 : pathsForest [] f [] = .ok x)
     (h3 : ∀ t r, f = t :: r → t.dir.kind = .Jsight)
     (hij : i < j) (he₁ : (flatAF [] f)[i]? = some e₁) (he₂ : (flatAF [] f)[j]? = some e₂)
     (k₁ : e₁.d.kind = .Type) (k₂ : e₂.d.kind = .Type) (hn : e₁.d.param "Name" = e₂.d.param "Name")
@@ -86,9 +87,9 @@ theorem dup_type_located {banned : List Kind} {f : List BTree} {c₀ c : Cat} {x
     compile banned f = .error ⟨e₂.d.id, .duplicateNames⟩ :=
   compile_run_error h0 h1 h2 h3 (dup_type_run hij he₁ he₂ k₁ k₂ hn hpre)
 
-theorem dup_server_located {banned : List Kind} {f : List BTree} {c₀ c : Cat} {x : Option Nat} {i j : Nat}
+theorem dup_server_located {banned : List Kind} {f : List BTree} {c₀ c : Cat} {x : List Nat} {i j : Nat}
     {e₁ e₂ : Ent}
-    (h0 : collectTags f {} = .ok c₀) (h1 : checkTypeNames f = .ok ()) (h2 : pathsForest [] f none = .ok x)
+    (h0 : collectTags f {} = .ok c₀) (h1 : checkTypeNames f = .ok ()) (h2 : pathsForest [] f [] = .ok x)
     (h3 : ∀ t r, f = t :: r → t.dir.kind = .Jsight)
     (hij : i < j) (he₁ : (flatAF [] f)[i]? = some e₁) (he₂ : (flatAF [] f)[j]? = some e₂)
     (k₁ : e₁.d.kind = .Server) (k₂ : e₂.d.kind = .Server) (hn : e₁.d.param "Name" = e₂.d.param "Name")
@@ -131,7 +132,7 @@ def exDupT : List BTree := [exJ, exTy 2 [64, 97], exTy 3 [64, 98], exTy 4 [64, 9
 def exDupTPre : Cat := match run [] ((flatAF [] exDupT).take 3) {} with | .ok c => c | .error _ => {}
 
 example : compile [] exDupT = .error ⟨4, .duplicateNames⟩ :=
-  dup_type_located (i := 1) (j := 3) (c₀ := {}) (c := exDupTPre) (x := none) (e₁ := ⟨(exTy 2 [64, 97]).dir, [], []⟩)
+  dup_type_located (i := 1) (j := 3) (c₀ := {}) (c := exDupTPre) (x := []) (e₁ := ⟨(exTy 2 [64, 97]).dir, [], []⟩)
     (e₂ := ⟨(exTy 4 [64, 97]).dir, [], []⟩) (by decide +kernel) (by decide +kernel) (by decide +kernel)
     (by intro t r h; cases h; rfl) (by decide) rfl rfl rfl rfl rfl (by decide +kernel)
 example : compile [] exDupT = .error ⟨4, .duplicateNames⟩ := by decide +kernel
@@ -141,7 +142,7 @@ def exDupS : List BTree := [exJ, exSrv 2 [64, 115], exTy 3 [64, 97], exSrv 4 [64
 def exDupSPre : Cat := match run [] ((flatAF [] exDupS).take 3) {} with | .ok c => c | .error _ => {}
 
 example : compile [] exDupS = .error ⟨4, .duplicateNames⟩ :=
-  dup_server_located (i := 1) (j := 3) (c₀ := {}) (c := exDupSPre) (x := none) (e₁ := ⟨(exSrv 2 [64, 115]).dir, [], []⟩)
+  dup_server_located (i := 1) (j := 3) (c₀ := {}) (c := exDupSPre) (x := []) (e₁ := ⟨(exSrv 2 [64, 115]).dir, [], []⟩)
     (e₂ := ⟨(exSrv 4 [64, 115]).dir, [], []⟩) (by decide +kernel) (by decide +kernel) (by decide +kernel)
     (by intro t r h; cases h; rfl) (by decide) rfl rfl rfl rfl rfl (by decide +kernel)
 
